@@ -1026,7 +1026,16 @@ namespace detail {
                         {
                             options |= std::regex_constants::icase;
                         }
-                        std::basic_regex<char_type> pattern(buffer, options);
+                        std::basic_regex<char_type> pattern;
+                        JSONCONS_TRY
+                        {
+                            pattern = std::basic_regex<char_type>(buffer, options);
+                        }
+                        JSONCONS_CATCH(const std::regex_error&) // not a json_exception: report it as a syntax error of the expression
+                        {
+                            ec = jsonpath_errc::syntax_error;
+                            return path_expression_type(alloc_);
+                        }
                         push_token(resources, resources.get_regex_operator(std::move(pattern)), ec);
                         if (JSONCONS_UNLIKELY(ec)) {return path_expression_type(alloc_);}
                         buffer.clear();
